@@ -158,11 +158,12 @@ def run(ctx):
     # ---- parameters derived from data ---------------------------------------------
     path = os.path.join(ctx.tmpdir, 'c18.fcs')
     for cid, rng in ctx.cases([('data', i) for i in range(150 if ctx.tier == 'quick' else 10000)]):
-        kind = int(rng.integers(3))
-        nlist = int(rng.integers(1, 4))
+        kind0 = int(rng.integers(4))           # 3 = a list MIXING plain arrays (no range known) and samples (range known)
+        nlist = int(rng.integers(1, 4)) if kind0 < 3 else int(rng.integers(2, 5))
         datas, ys, rk = [], [], []
-        nonpos = kind == 0 and rng.random() < 0.3        # every data set of this case is without a positive value
-        for _ in range(nlist):
+        nonpos = kind0 == 0 and rng.random() < 0.3        # every data set of this case is without a positive value
+        for li in range(nlist):
+            kind = kind0 if kind0 < 3 else ([0, 2, 1][li] if li < 2 else int(rng.integers(3)))
             N = int(rng.integers(3, 80)) if cid[1] % 30 != 4 else int(rng.choice([70001, 150000]))
             if kind == 0:     # plain arrays (no range): 1-D or 2-D
                 a = rng.normal(200, 400, size=(N, 3)) if rng.random() < 0.6 else np.abs(rng.normal(200, 400, size=(N, 3))) + 1
@@ -174,7 +175,9 @@ def run(ctx):
                     # the most negative event is tiny (|r| < T*10^-M): the documented W is clamped at 0, never negative
                     a = np.abs(a) + 1
                     a[int(rng.integers(N)), ch] = -float(10 ** rng.uniform(-7, 0.5))
-                if rng.random() < 0.3:
+                if kind0 == 3:
+                    a = np.abs(a) * float(rng.choice([0.2, 1.0]))      # (below the samples' range: the range must still count for those)
+                if rng.random() < 0.3 and kind0 != 3:
                     datas.append(a[:, ch].copy())
                     one_d = True
                 else:
@@ -191,13 +194,14 @@ def run(ctx):
                 datas.append(s)
                 ys.append(np.asarray(s)[:, ch].astype(float))
                 rk.append(float(s.range(ch)[1]))
+        kind = kind0
         if kind == 0 and any(d.ndim == 1 for d in datas) and any(d.ndim == 2 for d in datas):
             datas = [d if d.ndim == 1 else d[:, 1].copy() for d in datas]
-        chan = None if all(d.ndim == 1 for d in datas) else (1 if rng.random() < 0.5 or kind == 0 else datas[0].channels[1])
+        chan = None if all(d.ndim == 1 for d in datas) else (1 if rng.random() < 0.5 or kind in (0, 3) else datas[0].channels[1])
         arg = datas[0] if (nlist == 1 and rng.random() < 0.5) else datas
         o = core.attempt(P._LogicleTransform, data=arg, channel=chan)
         Tr, Mr, Wr = ref.derive(ys, chan, rk)
-        d = dict(kind=('array', 'float-sample', 'int-sample')[kind], nlist=nlist, want=[Tr, Mr, Wr])
+        d = dict(kind=('array', 'float-sample', 'int-sample', 'mixed-arrays-and-samples')[kind], nlist=nlist, want=[Tr, Mr, Wr])
         ctx.counters['chk:derive'] += 1
         if Tr <= 0:
             ctx.check(o.raised, 'refusal:invalid-triple-accepted', cid, **d)
